@@ -87,7 +87,7 @@ Sys(p, n, a, b, c, ret, errno, s, allocs) ==
           [] OTHER -> t
       ok ==
         CASE n = "fcntl" /\ b = F_GETFD /\ ret >= 0 -> a \in DOMAIN t /\ (ret % 2 = 1) = t[a].cx
-          [] n = "close" /\ ret = 0 -> a \in DOMAIN t
+          [] n = "close" /\ ret = 0 /\ p = 0 -> a \in DOMAIN t   \* (a panicking child opens files the log does not see)
           [] n = "pipe" /\ ret = 0 -> a \notin DOMAIN t /\ b \notin DOMAIN t
           [] OTHER -> TRUE
   IN
@@ -104,13 +104,24 @@ Sys(p, n, a, b, c, ret, errno, s, allocs) ==
   /\ maxAllocs' = IF p = 1 /\ allocs > maxAllocs THEN allocs ELSE maxAllocs
   /\ parentStdTouched' = (parentStdTouched \/ (p = 0 /\ ((n = "close" /\ a <= 2) \/ (n = "dup2" /\ b <= 2))))
   /\ viol' = viol
-       \cup V(p = 1 /\ n \in {"execve", "_exit"} => allocs = 0, "C17_no_alloc_between_fork_and_exec")
+       \cup V(p = 1 /\ n \in {"execve", "_exit", "escape"} => allocs = 0, "C17_no_alloc_between_fork_and_exec")
+       \* the forked child must exec or _exit; coming back out of the library (e.g. by a panic that
+       \* unwinds) makes it run on as a copy of the parent
+       \cup V(n # "escape", "C07_forked_child_escaped")
+       \cup V(n # "escape", "C15_forked_child_escaped")
        \cup V(~(p = 0 /\ ((n = "close" /\ a <= 2) \/ (n = "dup2" /\ b <= 2))), "C05_parent_std_untouched")
   /\ UNCHANGED <<cfg, base, pre, res, reported, penv, pcwd, pass>>
 
 \* ---------------------------------------------------------------- result of Popen::create
 StreamCfg(i) == CASE i = 0 -> cfg.stdin [] i = 1 -> cfg.stdout [] OTHER -> cfg.stderr
 Invalid == cfg.stdin = "merge" \/ (cfg.stdout = "merge" /\ cfg.stderr = "merge")
+
+\* C15: index of the first PATH entry (non-empty) under which the command can be started; 0 if none
+FirstStartable ==
+  LET pe == cfg.path_entries
+      idx == {i \in 1..Len(pe) : pe[i][2] = "ok" /\ pe[i][1] # ""}
+  IN IF idx = {} THEN 0 ELSE CHOOSE i \in idx : \A j \in idx : i <= j
+PathExpected == IF FirstStartable = 0 THEN "" ELSE cfg.path_entries[FirstStartable][1] \o "2f" \o cfg.cmd
 
 Result(r) ==
   /\ res' = r
@@ -119,6 +130,11 @@ Result(r) ==
        \cup V(r.ok => \A i \in 0..2 : r.has[i + 1] = (StreamCfg(i) = "pipe"), "C05_handle_iff_piped")
        \cup V(Invalid => ~r.ok /\ r.errkind = "logic" /\ ~forked, "C05_invalid_refused")
        \cup V(r.errkind # "panic", "C07_panic")
+       \* a launch that has every reason to succeed must succeed (otherwise nothing below is observed)
+       \cup (IF cfg.expect_start /\ ~cfg.has_fault /\ ~Invalid /\ ~cfg.nul /\ ~cfg.has_path /\ ~r.ok
+             THEN {"C05_unexpected_launch_failure", "C06_unexpected_launch_failure", "C08_unexpected_launch_failure",
+                   "C17_unexpected_launch_failure", "C18_unexpected_launch_failure", "C15_unexpected_launch_failure"}
+             ELSE {})
        \* C06: NUL anywhere => error and nothing started
        \cup V(cfg.nul => ~r.ok /\ ~forked, "C06_nul_rejected")
        \* C07: a handle iff the image started; errors carry the errno of the failing step
@@ -127,6 +143,9 @@ Result(r) ==
        \cup V(cfg.has_fault /\ ~Invalid /\ ~cfg.nul /\ ~r.ok /\ r.errkind = "io" => r.errno = cfg.fault_errno, "C07_errno_of_failing_step")
        \cup V(cfg.has_fault /\ ~Invalid /\ ~cfg.nul /\ cfg.fault_kind # "close" => ~r.ok, "C07_failure_reported")
        \cup V(~cfg.expect_start /\ ~cfg.has_fault => ~r.ok /\ r.errkind = "io", "C07_failure_reported")
+       \* C15: something runs iff some entry can start it; otherwise an operating-system error
+       \cup V(cfg.has_path /\ FirstStartable = 0 => ~r.ok /\ r.errkind = "io" /\ r.errno # 0, "C15_error_when_nothing_startable")
+       \cup V(cfg.has_path /\ FirstStartable # 0 => r.ok, "C15_first_startable_runs")
   /\ UNCHANGED <<cfg, base, pre, ptab, ctab, forked, nforks, execd, didExec, attempts, libpipes, maxAllocs,
                  reported, penv, pcwd, pass, parentStdTouched, sanity>>
 
@@ -182,7 +201,8 @@ Report(r, held) ==
        \cup V(cfg.setuid < 0 => r.euid = 0, "C06_identity")
        \cup V(cfg.setgid < 0 => r.egid = 0, "C06_identity")
        \cup V(IF cfg.setpgid THEN r.pgid_is_pid ELSE r.pgid_is_parent_pgid, "C06_process_group")
-       \cup V(cfg.has_expexe => r.exe = cfg.expexe, "C15_first_startable_runs")
+       \cup V(cfg.has_expexe => r.exe = cfg.expexe, "C15_no_search_for_slash_or_empty_path")
+       \cup V(cfg.has_path => r.exe = PathExpected, "C15_first_startable_runs")
        \cup V(res.ok, "C07_started_but_error_returned")
   /\ UNCHANGED <<cfg, base, pre, ptab, ctab, forked, nforks, execd, didExec, attempts, libpipes, maxAllocs, res,
                  penv, pcwd, pass, parentStdTouched>>
@@ -201,6 +221,16 @@ NoReport ==
   /\ viol' = viol \cup {"C07_ok_only_if_started"}
   /\ UNCHANGED <<cfg, base, pre, ptab, ctab, forked, nforks, execd, didExec, attempts, libpipes, maxAllocs, res,
                  reported, penv, pcwd, pass, parentStdTouched, sanity>>
+
+\* The scenario hung until the watchdog killed the children.  holders = the pipe inodes each child
+\* held on descriptors above 2.  A child holding an end of a library-created pipe there is the leak
+\* that explains the hang (the launch-status pipe never closes / end-of-file never arrives).
+Watchdog(inos) ==
+  /\ IF inos \cap libpipes # {}
+     THEN viol' = viol \cup {"C08_eof_not_propagated", "C07_launch_hangs", "C05_hang"} /\ sanity' = sanity
+     ELSE viol' = viol /\ sanity' = sanity \cup {"watchdog_without_explanation"}
+  /\ UNCHANGED <<cfg, base, pre, ptab, ctab, forked, nforks, execd, didExec, attempts, libpipes, maxAllocs, res,
+                 reported, penv, pcwd, pass, parentStdTouched>>
 
 \* ---------------------------------------------------------------- after the call (and after the harness let go)
 Post(t, children) ==
